@@ -11,7 +11,7 @@ emitted; it predicts that every generated configuration IS emitted (`ok`), so an
 namespace RpmVerif.Driver.C09
 open RpmVerif.Hdr RpmVerif.Bld RpmVerif.Driver RpmVerif.Driver.Bld RpmVerif.RpmValid
 
-def ops : List String := ["valid", "validfile"]
+def ops : List String := ["valid", "validfile", "validpad"]
 
 def implField (impl : String) (k : String) : Option String :=
   (impl.splitOn " ").findSome? fun t => if t.startsWith (k ++ "=") then some (t.drop (k.length + 1)).toString else none
@@ -60,7 +60,12 @@ def historyLabel (args : List String) : String :=
   | none => s
 
 def handle (op : String) (args : List String) (impl : String) : String :=
-  if op == "validfile" then
+  if op == "validpad" then
+    -- a signer whose blob has the requested total length (genuine signature + private-use packets): the signed package must
+    -- be structurally valid whatever the length; the model does not predict the bytes (`*`)
+    if !impl.startsWith "ok " then answer "ok" "fails:signer-output-refused" "padsig-refused"
+    else answer "*" (judge false ((implField impl "pkg").getD "") ((implField impl "arch").getD "")) "padsig"
+  else if op == "validfile" then
     let label := "asset-" ++ ((kv args "then").getD "asis")
     if !impl.startsWith "ok " then answer "ok" "dontcare" (label ++ "-unreadable")
     else answer "*" (judge true ((implField impl "pkg").getD "") ((implField impl "arch").getD "")) label
